@@ -2,6 +2,7 @@ import AgVerif.Model.Proto
 import AgVerif.Model.Order
 import AgVerif.Model.Intervals
 import AgVerif.Model.DerivedSeq
+import AgVerif.Model.IfStruct
 open AgVerif AgVerif.Proto AgVerif.Order
 
 /-- "1,2,3" → [1,2,3]; "-" → [] -/
@@ -100,6 +101,17 @@ def handle (line : String) : String :=
            ++ " e " ++ toString st.entry)
        | none => "fuel")
     | _, _, _ => "bad-op"
+  | ["ifst", es, entry, conds, idoms, nums] => match pairs ">" es, entry.toNat?, csv conds, pairs "=" idoms, pairs "=" nums with
+    | some es, some entry, some conds, some idoms, some nums =>
+      -- `graph.post_order()` by the model tied in stream site-post; the set `unresolved` enumerated in insertion order
+      let post := postOrder (sucsOf es) entry (4 * es.length + 8)
+      let nrev := fun n => (es.filter (fun e => e.2 == n)).length
+      let st := IfStruct.ifStruct id post (fun n => conds.contains n) idoms nrev (lookupD nums)
+      let top := (nums.foldl (fun m p => max m p.1) entry) + 1
+      let fol := (List.range top).filterMap fun n => (st.follow n).map fun f => toString n ++ ">" ++ toString f
+      (if fol.isEmpty then "-" else ",".intercalate fol) ++ " U " ++
+        showCsv ((List.range top).filter fun n => st.unresolved.contains n)
+    | _, _, _, _, _ => "bad-op"
   | _ => "bad-op"
 
 def main : IO Unit := runMain handle
